@@ -219,6 +219,7 @@ class Instance:
     native_n: int = 8            # native run-time evaluations of the same contract in a proof instance (bounded stand-in)
     scales: tuple = (1.0,)       # input magnitudes cycled through by the native evaluations
     budget: float = None         # total solver seconds of the instance (default max(90, 6*timeout))
+    fixed_seed: bool = False     # bounded instance: ignore VERIF_SEED (used to pin a known finding to its input)
     shard_depth: int = 0         # > 0: split the path exploration over worker processes by decision prefixes of this length
 
     @property
@@ -472,6 +473,8 @@ def native_run(inst, env, seed=0, writable=False, scale=None):
 
 def _jsonable(x, depth=0):
     if isinstance(x, (np.ndarray,)):
+        if x.dtype == object:
+            return [repr(v)[:80] for v in x.reshape(-1)[:20]]
         if x.dtype.kind == 'c':
             return {'complex': True, 're': x.real.tolist(), 'im': x.imag.tolist()}
         return x.tolist()
